@@ -8,7 +8,7 @@ def build_impl(ctx, backend="dense", precond="ruiz", scalar="xrat"):
     d = ["BACKEND=%d" % BACKENDS[backend], "PRECOND=%d" % (0 if precond == "ruiz" else 1), "SCALAR=%d" % (0 if scalar == "xrat" else 1)]
     return dict(src="drv_solver.cpp", defines=tuple(d), name="drv_%s_%s_%s" % (backend, precond, scalar))
 
-def correspond(ctx, name, cases_text, precond="ruiz", backends=("dense",), timeout=600, ignore=("nonfinite", "trace"), only=None):
+def correspond(ctx, name, cases_text, precond="ruiz", backends=("dense",), timeout=600, ignore=("nonfinite", "trace"), only=None, skip=None):
     """run the model and the xrat implementation(s) on the cases; one correspondence obligation per back end.
     The single (dense) Gallina model is the reference for every back end: in exact arithmetic, with iterative
     refinement off, all five back ends compute the same iterates (theorem backends_agree), so the sparse back ends are
@@ -35,7 +35,8 @@ def correspond(ctx, name, cases_text, precond="ruiz", backends=("dense",), timeo
         if rc1 != 0:
             ctx.ob(obn, "correspondence", False, "driver failed rc=%d: %s" % (rc1, o1[-600:])); res[b] = (False, [], vlib.parse_obs(o1)); continue
         a = vlib.parse_obs(o1)
-        diffs = vlib.diff_obs(a, mobs, ignore=ignore, only=(only.get(b) if isinstance(only, dict) else only))
+        sk = (skip or {}).get(b, set())
+        diffs = vlib.diff_obs({k: v for k, v in a.items() if k not in sk}, {k: v for k, v in mobs.items() if k not in sk}, ignore=ignore, only=(only.get(b) if isinstance(only, dict) else only))
         ctx.ob(obn, "correspondence", not diffs,
                "; ".join("%s %s impl=%s model=%s" % (c, k, str(x)[:80], str(y)[:80]) for c, k, x, y in diffs[:5]))
         res[b] = (not diffs, diffs, a)
